@@ -685,8 +685,9 @@ def verify_function(src, registry: Registry, schema_factory, models, ct: Contrac
     if ct.bounded:
         rep.status = "bounded"
         return rep
+    synthetic = ct.key.startswith("lemma:")
     fi = src.funcs.get(ct.key)
-    if fi is None:
+    if fi is None and not synthetic:
         rep.status = "unsupported"
         rep.unsupported.append(f"contract names {ct.key}, which does not exist in the current source")
         return rep
@@ -713,7 +714,10 @@ def verify_function(src, registry: Registry, schema_factory, models, ct: Contrac
             path.ghost["ctx"] = c
             outcome, val = "return", None
             try:
-                val = ip.run_body(fi, args, {}, None, parent_frame=make_parent_frame(ip, src, fi))
+                if synthetic:
+                    val = c.synthetic_body(c) if getattr(c, "synthetic_body", None) else None
+                else:
+                    val = ip.run_body(fi, args, {}, None, parent_frame=make_parent_frame(ip, src, fi))
             except RaiseEx as r:
                 outcome, val = "raise", r.exc
             except PathCut:
